@@ -5,17 +5,18 @@
 package main
 
 import (
-	"github.com/ogen-go/ogen/middleware"
-	ht "github.com/ogen-go/ogen/http"
-	"errors"
 	"bytes"
 	"context"
 	"encoding/json"
+	"errors"
 	"flag"
 	"fmt"
+	ht "github.com/ogen-go/ogen/http"
+	"github.com/ogen-go/ogen/middleware"
 	"io"
 	"net/http"
 	"net/http/httptest"
+	"net/textproto"
 	"os"
 	"sort"
 	"strings"
@@ -90,7 +91,7 @@ func (handler) PostM(ctx context.Context, req *api.PostMReq) (string, error) {
 	vs.Point("handler.PostM")
 	b, err := io.ReadAll(req.F.File)
 	vs.Observe("handler PostM a=%q", req.A)
-	note(ctx, "PostM{a=%q file=%q name=%q err=%v}", req.A, b, req.F.Name, err)
+	note(ctx, "PostM{a=%q file=%q name=%q type=%q err=%v}", req.A, b, req.F.Name, req.F.Header.Get("Content-Type"), err)
 	return fmt.Sprintf("m:%s:%d", req.A, len(b)), nil
 }
 
@@ -243,6 +244,20 @@ var menu = []call{
 		r, err := c.PostM(ctx, &api.PostMReq{A: "field", F: ht.MultipartFile{Name: "f.txt", File: strings.NewReader("file-content-0123456789")}})
 		return show(r, err)
 	}},
+	{"postM caller's part header", func(ctx context.Context, c *api.Client) string {
+		// the caller's header of a file part: private to the call under the scheduler, one map shared
+		// by all goroutines in the free-running race pass (read-only use must stay read-only)
+		hdr := textproto.MIMEHeader{"Content-Type": {"text/x-verif"}}
+		if vs.Free {
+			hdr = sharedPartHeader
+		}
+		r, err := c.PostM(ctx, &api.PostMReq{A: "hdr", F: ht.MultipartFile{Name: "h.txt", File: strings.NewReader("with-header"), Header: hdr}})
+		out := show(r, err)
+		if !vs.Free && (len(hdr) != 1 || len(hdr["Content-Type"]) != 1 || hdr["Content-Type"][0] != "text/x-verif") {
+			out += fmt.Sprintf(" INPUT-MODIFIED: the caller's header is now %v", hdr)
+		}
+		return out
+	}},
 	{"postM invalid", func(ctx context.Context, c *api.Client) string {
 		r, err := c.PostM(ctx, &api.PostMReq{A: "much-too-long-a-field", F: ht.MultipartFile{Name: "g.txt", File: strings.NewReader("other")}})
 		return show(r, err)
@@ -256,6 +271,8 @@ var menu = []call{
 		return fmt.Sprintf("PostTOK %q", b)
 	}},
 }
+
+var sharedPartHeader = textproto.MIMEHeader{"Content-Type": {"text/x-verif"}}
 
 type kase struct {
 	Threads    [][]string `json:"threads_and_their_calls"`
@@ -317,6 +334,12 @@ func main() {
 		ref[i] = runCall(i)
 		if again := runCall(i); again != ref[i] {
 			drv.Fatal("call %q is not deterministic when run alone:\n%s\n%s", menu[i].name, ref[i], again)
+		}
+	}
+	for i := range menu {
+		if strings.Contains(ref[i], "INPUT-MODIFIED") {
+			// an input the caller may share between concurrent calls was written to
+			drv.Violation(map[string]string{"class": "call-writes-to-an-input-the-caller-may-share-between-calls"}, 1, kase{Threads: [][]string{{menu[i].name}}, Violation: ref[i], Reproduced: 5, Combo: [][]int{{i}}})
 		}
 	}
 	if *free {
